@@ -53,7 +53,7 @@ def parse_module(path):
                 kv['props'] = kv.get('props', '').split(',')
                 kv.setdefault('tier', 'quick')
                 kv.setdefault('label', 'bounded')
-                kv.setdefault('timeout', '300')
+                kv.setdefault('timeout', '900')
                 kv['module'] = mod['name']
                 mod['harnesses'].append(kv)
             elif body.startswith('hole '):
